@@ -2,7 +2,7 @@
 CONFIG = {
     "manifest": {'level_text': 'Same specification-level model as C02. Converse direction: every file gdstk writes (all option sets, CBLOCKs inflated by the harness) is decoded by the extracted strict decoder spec_oas_decode and must equal the dump of the library that was saved (property-level comparison with the file as failing input); END-record truth (length 256, table offsets, S_CELL_OFFSET, S_TOP_CELL, S_BOUNDING_BOX, S_MAX_*) is checked on the bytes. Forward direction: an independent specification-level random encoder (modal reuse vs explicit fields for every info-byte bit, XYRELATIVE, all repetition / point-list / real types, all 26 compact trapezoids, names inline or through tables placed before or after use, PAD, CBLOCK) produces files that read_oas must load to the layout the strict decoder assigns. Theorems: ctrapezoid_table_matches_spec (regenerated from the source on every run), table well-formedness for all 26 types and all w, h, detection soundness, per-record and whole-file round trips of the specification codec. READER MODEL: Statement-level Gallina model read_oas_model (coq/OasisRead.v) of gdstks read_oas on uncompressed byte streams: header / START, the record switch 0-34 with every modal variable the C++ keeps (never reset at CELL except positions and xy-mode), name tables with implicit / explicit numbers, next_property targets, references and unfinished property names / values resolved at END, sticky stream errors with the values the helpers return after a failure, undefined behaviour as Crash. Theorem oas_reader_accepts_spec_partial (closed under the global context): for EVERY byte stream bs, spec_oas_decode bs = Some L and covered bs imply read_oas_model bs = Ok (view L), where covered bs := cov_oas_decode bs <> None and cov_oas_decode is a restriction of the strict decoder (cov_refines_spec) by the conditions (c1)-(c8) listed in OasisRead.v. Per-record theorems reader_rectangle / polygon / path / trapezoid / ctrapezoid / circle / text / placement / property / last_property relate every covered dec_<record> to the readers branch through modal_rel; reader_repetition, reader_point_list, reader_end for the helpers and the END resolution. The unrestricted statement is refuted by nine explicit witnesses (oas_reader_accepts_spec_refuted_*), each confirmed on the real reader.', 'level_note': " The specification model is a transcription made without the format document at hand; disagreements are triaged against gdstk's reader AND writer before being called defects. Known findings: S_TOP_CELL ignores Name-typed references; S_MAX_STRING_LENGTH ignores inline placement names. The reader model is tied to the code by the differential run only (identical dump text on valid and malformed streams) and by the regenerated CTRAPEZOID table / enum constants. Where the model says Crash the C++ has undefined behaviour and the comparison accepts any implementation result; Hang / Crash from memory exhaustion use fixed thresholds (allocation of 2^36 bytes fails, 2^26 failing iterations do not finish). CBLOCK is outside the model.", 'technique': 'Coq theorems on the specification-level OASIS codec (table equality re-proved from the source each run) + extracted strict decoder as oracle on gdstk-written files + independent encoder against read_oas'},
     "prop_file": "Properties_C04",
-    "extra_prop_files": ["Properties_C04R", "Properties_C02", "Properties_C02C", "Properties_C02D"],   # statement-level models of read_oas / write_oas and their theorems
+    "extra_prop_files": ["Properties_C04R", "Properties_C02", "Properties_C02C", "Properties_C02D", "Properties_C04S"],   # statement-level models of read_oas / write_oas and their theorems
     "units": [
         {"harness": "c04", "driver": "c04", "extracted": ["c04"], "extract_file": "Extract_C04",
          "include_cpp": ["polygon.cpp"],   # static is_rectangle / is_trapezoid, reached by #include in the harness
@@ -14,6 +14,9 @@ CONFIG = {
         # Library::write_oas against its statement-level Coq model, byte for byte (oas_writer_conforms: the converse direction)
         {"harness": "c04w", "driver": "c04w", "extracted": ["c04w"], "extract_file": "Extract_C04W", "module": "checks.c04w",
          "thorough_seeds": 1},
+        # standard properties (S_MAX_*, S_TOP_CELL, S_BOUNDING_BOX, S_CELL_OFFSET): write_oas under the 16 flag combinations, written
+        # twice, byte for byte against OasisStd.v; every stated value against integer truth from the abstract layout
+        {"harness": "oas_std", "driver": "oas_std", "extracted": ["oas_std"], "extract_file": "Extract_OasStd", "module": "checks.oas_std", "thorough_seeds": 1},
         # compressed blocks: read_oas with CBLOCK records against read_oas_model_c (inflate as a finite table), write_oas at
         # deflate level > 0 against write_oas_model_c
         {"harness": "oas_cblock", "driver": "oas_cblock", "extracted": ["oas_cblock"], "extract_file": "Extract_OasCblock", "module": "checks.oas_cblock", "thorough_seeds": 1},
